@@ -20,6 +20,7 @@ pub enum Profile {
 }
 
 struct Occ {
+    iter: [bool; 2],
     rc: [bool; NRC],
     weak: [bool; NWEAK],
     guard: [bool; NGUARD],
@@ -29,7 +30,7 @@ struct Occ {
 
 impl Occ {
     fn new() -> Self {
-        Occ { rc: [false; NRC], weak: [false; NWEAK], guard: [false; NGUARD], snap: [None; NSNAP], wsnap: [None; NWSNAP] }
+        Occ { iter: [false; 2], rc: [false; NRC], weak: [false; NWEAK], guard: [false; NGUARD], snap: [None; NSNAP], wsnap: [None; NWSNAP] }
     }
     fn pick(rng: &mut Rng, xs: &[bool], want: bool) -> Option<usize> {
         let c: Vec<usize> = (0..xs.len()).filter(|&i| xs[i] == want).collect();
@@ -77,7 +78,7 @@ fn weights(p: Profile, rng: &mut Rng) -> Vec<(K, u32)> {
     let base: Vec<(K, u32)> = match p {
         Profile::Mixed => vec![
             (Pin, 8), (Unpin, 6), (Reactivate, 1), (ReactAfter, 1), (PanicCs, 1), (Flush, 3),
-            (New, 10), (NewMany, 1), (NewIter, 1), (Clone, 5), (DropRc, 8), (Finalize, 2), (Downgrade, 3), (WeakMany, 1), (SnapOf, 2), (RcTag, 1), (DerefRc, 2),
+            (New, 10), (NewMany, 1), (NewIter, 1), (IterOpen, 1), (IterNext, 1), (IterClose, 1), (Clone, 5), (DropRc, 8), (Finalize, 2), (Downgrade, 3), (WeakMany, 1), (SnapOf, 2), (RcTag, 1), (DerefRc, 2),
             (Counted, 4), (SnapDown, 1), (SnapTag, 1), (DerefSnap, 4),
             (Load, 10), (Store, 8), (Swap, 4), (Cas, 5), (CasTag, 1),
             (CloneW, 1), (DropW, 2), (Upgrade, 3), (WSnapOf, 1), (WsCounted, 1), (WsUpgrade, 2),
@@ -100,7 +101,7 @@ fn weights(p: Profile, rng: &mut Rng) -> Vec<(K, u32)> {
             (LoadW, 10), (StoreW, 8), (SwapW, 8), (CasW, 14), (CasTagW, 5), (Flush, 1),
         ],
         Profile::Bulk => vec![
-            (Pin, 5), (Unpin, 4), (Flush, 2), (PanicCs, 2), (New, 3), (NewMany, 8), (NewIter, 8), (WeakMany, 8), (Clone, 2), (DropRc, 10), (Finalize, 3), (Downgrade, 2), (DropW, 6), (Upgrade, 4),
+            (Pin, 5), (Unpin, 4), (Flush, 2), (PanicCs, 2), (New, 3), (NewMany, 8), (NewIter, 6), (IterOpen, 5), (IterNext, 5), (IterClose, 5), (WeakMany, 8), (Clone, 2), (DropRc, 10), (Finalize, 3), (Downgrade, 2), (DropW, 6), (Upgrade, 4),
             (Load, 3), (Store, 5), (Swap, 3), (DerefRc, 2), (StoreW, 2),
         ],
         Profile::Ebr => vec![
@@ -236,6 +237,37 @@ fn gen_ops_from(rng: &mut Rng, p: Profile, n: usize, roots: u32, wroots: u32, mu
                 let skip = if rng.chance(0.35) { 1 + rng.below(3) as u32 } else { 0 };
                 Some(op(K::NewIter, ci, take as u32, abort | (skip << 1), g))
             }
+            K::IterOpen => match (0..2).find(|&i| !occ.iter[i]) {
+                Some(slot) => {
+                    let ci = rng.below(5) as u32;
+                    let cnt = [1usize, 2, 3, 5, 8][ci as usize];
+                    let take = rng.below(cnt as u64) as usize;
+                    let mut left = take;
+                    for i in 0..NRC {
+                        if left > 0 && !occ.rc[i] {
+                            occ.rc[i] = true;
+                            left -= 1;
+                        }
+                    }
+                    occ.iter[slot] = true;
+                    Some(op(K::IterOpen, ci, take as u32, slot as u32, 0))
+                }
+                None => None,
+            },
+            K::IterNext => (0..2).find(|&i| occ.iter[i]).map(|slot| {
+                if let Some(f) = Occ::pick(rng, &occ.rc, false) {
+                    occ.rc[f] = true;
+                }
+                op(K::IterNext, slot as u32, 0, 0, 0)
+            }),
+            K::IterClose => (0..2).find(|&i| occ.iter[i]).map(|slot| {
+                occ.iter[slot] = false;
+                let (abort, g) = match occ.live_guard(rng) {
+                    Some(g) if rng.chance(0.5) => (1, g as u32),
+                    _ => (0, 0),
+                };
+                op(K::IterClose, slot as u32, abort, g, 0)
+            }),
             K::Clone => match (Occ::pick(rng, &occ.rc, true), Occ::pick(rng, &occ.rc, false)) {
                 (Some(s), Some(d)) => {
                     occ.rc[d] = true;
@@ -603,6 +635,7 @@ pub fn generate(prop: &str, family: &str, seed: u64) -> RunDesc {
         "dir-t11" => crate::dir::t11(prop, seed),
         "dir-t12" => crate::dir::t12(prop, seed),
         "dir-t13" => crate::dir::t13(prop, seed),
+        "dir-b" => crate::dir::b(prop, seed),
         "dir-w" => crate::dir::w(prop, seed),
         "dir-c" => crate::dir::c(prop, seed),
         "client" => crate::fam_client::gen(prop, seed),
